@@ -1075,9 +1075,11 @@ func (ms *monitorState) l1Exclusion(g *ReqRec, rep *Reply) {
 					continue // answered before the hold could exist
 				}
 				ended = true
-			} else if u.Op.Lid == h.Op.Lid && u.InvEv > h.InvEv {
-				ended = true // a later request with the same LockId may have changed its terms
-			} else if u.Op.Flag&protocol.LOCK_FLAG_SHOW_WHEN_LOCKED != 0 && u.Op.Flag&protocol.LOCK_FLAG_UPDATE_WHEN_LOCKED != 0 && u.InvEv > h.InvEv {
+			} else if len(u.Replies) > 0 && u.Replies[0].Ev < h.InvEv {
+				continue // decided before the hold could exist
+			} else if u.Op.Lid == h.Op.Lid {
+				ended = true // a request with the same LockId decided after the grant may have changed its terms
+			} else if u.Op.Flag&protocol.LOCK_FLAG_SHOW_WHEN_LOCKED != 0 && u.Op.Flag&protocol.LOCK_FLAG_UPDATE_WHEN_LOCKED != 0 {
 				ended = true // show+update rewrites the oldest hold's terms
 			}
 			if ended {
